@@ -100,7 +100,9 @@ theorem ast_readonly : Gen.astWriteFacts = [] := by decide
 /-- **cells_never_overwritten.**  No assignment of lib/query stores into an element of an EXISTING cell
     (`…RecordSet[r][f][0] = v`): cells are shared by every shallow copy of a cached table (open cursors,
     `DECLARE … VIEW AS SELECT` tables, the transaction's restore point, rows already read), so a new value
-    must arrive as a new cell (`NewCell`).  An offending assignment is reported as
+    must arrive as a new cell (`NewCell`); and no new record set is built over a record of an existing table
+    without copying it (`RecordSet{view.RecordSet[i]}`), because what the new view then does in place (Fix,
+    Select) happens to the table's own record.  An offending site is reported as
     `cellwrite:<file>:<function>:<lhs>`. -/
 theorem cells_never_overwritten : Gen.cellWriteFacts = [] := by decide
 
